@@ -172,7 +172,10 @@ func (w *Queue) start() {
 		for {
 			select {
 			case e := <-w.errChan:
-				for _, sub := range w.errorSubscribers {
+				w.errSubScriberMux.Lock()
+				subscribers := append([]chan error(nil), w.errorSubscribers...)
+				w.errSubScriberMux.Unlock()
+				for _, sub := range subscribers {
 					sub <- e
 				}
 			case <-w.queueContext.Done():
